@@ -14,7 +14,7 @@ from vf import env  # noqa
 FAMILIES = ["random", "newest-unrecoverable", "two-recoverable", "evidence-then-more", "random", "replay",
             "down", "all-newest", "newest-unrecoverable", "evidence-then-more", "two-recoverable", "random",
             "all-oldest", "replay", "evidence-then-more", "update-vs-newer", "held-modify", "update-vs-newer",
-            "held-modify", "thin-newest-flaky", "newest-unrecoverable", "thin-newest-flaky", "newer-dup-copies",
+            "held-modify", "thin-newest-flaky", "newest-unrecoverable", "thin-newest-flaky", "newer-dup-copies", "thin-newest-flaky",
             "newer-dup-copies"]
 
 
@@ -71,7 +71,7 @@ def gen_params(rng):
     nver = rng.choice([1, 2, 3, 3, 4, 5, 6])
     sizes = [rng.randint(8, 400) for _ in range(nver)]
     segsize = rng.choice([30, 64, 128, 1000])
-    if rng.random() < .22:
+    if rng.random() < .35:
         # shares larger than the 4000 bytes a survey caches: a download then needs further requests
         nver = rng.choice([2, 2, 3])
         sizes = [rng.randint(4300 * k, 5200 * k) for _ in range(nver)]
@@ -844,3 +844,5 @@ class History(object):
 #   seeded/C11-4 (_modify_once keeps a still-recoverable held version)  caught  modify-read-a-version-that-is-not-the-best-its-survey-located  (op held-modify)
 #   seeded/C11-5 (forced repair marks the lost version's shares bad)    caught  publish-seqnum-not-above-every-seqnum-its-survey-saw  (op repair-forced)
 #   seeded/C11-6 (retry re-updates the failed attempt's servermap)       caught  read-returned-older-than-best-located-version  (family thin-newest-flaky; a retried read is judged on its last survey)
+#   seeded/C11-7 (recoverable_versions counts share copies)             caught  read-returned-version-not-best-located  (family newer-dup-copies)
+#   seeded/C11-8 (download_version falls back to the best version)       caught  download-version-returned-another-versions-content  (read2 asks for an unrecoverable version of its map)
